@@ -1894,7 +1894,8 @@ def c20(ctx):
                 st2, j2 = shot(json.dumps(r).encode(), name, 400, r)
                 ctx.signatures.add(('invalid', name, m, st2))
                 ctx.count('constraint/' + name)
-                if st2 == 400 and isinstance(j2, dict) and name in ('unknown method', 'unknown bias name'):
+                # (only when the request itself is accepted: otherwise it may be rejected for its own reason first)
+                if st == 200 and st2 == 400 and isinstance(j2, dict) and name in ('unknown method', 'unknown bias name'):
                     known = gen.METHODS if name == 'unknown method' else gen.BIASES
                     if not all(k in j2.get('error', '') for k in known):
                         ctx.violation('the error for an %s does not list the available names' % name, {'request': r, 'answer': j2}, {'what': name})
